@@ -27,7 +27,7 @@ UNIT = {
         tf('getValue', subst={'T': ty}, cname='terminal__getValue_' + ty, fires={'R1': 1}) for ty in ('bool', 'int', 'long', 'float', 'double')
     ],
     'flags': ['--no-standard-checks', '--bounds-check', '--pointer-check', '--div-by-zero-check',
-              '--pointer-primitive-check', '--unwinding-assertions'],
+              '--unwinding-assertions'],
     'replay_sources': ['src/error.cc'],
     'jobs': [
         dict(name='getIntegerHandle', entry='h_getIntegerHandle', enforce='terminal__getIntegerHandle', props=['C19', 'C16']),
